@@ -2,12 +2,14 @@ from checks.common import *
 import re
 
 SPEC = {
-    "translators": ["gen_grammar"],
+    "translators": ["gen_grammar", "gen_tokenizer"],
     "bins": ["c10"],
-    "model_targets": ["Parser/ParserCheck.vo"],
-    "proof_targets": ["Parser/MachineProofs.vo", "Parser/MachineExamples.vo", "Parser/PositionProofs.vo"],
+    "model_targets": ["Parser/ParserCheck.vo", "Parser/TokenizerCheck.vo"],
+    "proof_targets": ["Parser/MachineProofs.vo", "Parser/MachineExamples.vo", "Parser/PositionProofs.vo", "Parser/TokenizerProofs.vo", "Parser/TokenizerInst.vo"],
     "assumptions": [
-        "the tokenizer is not modelled: the theorems take the token list as input; that the real token list tiles the source (contiguous, non-empty, ordered, from 0 to the source length) is evaluated by S on every generated input",
+        "the three logos lexers are abstract: tokens_tile_source holds for every lexer function that returns None exactly at the end of the input and otherwise a non-empty span inside the remaining input, and that depends only on the bytes from the current position on; the contract is evaluated on every answer of the real lexers recorded through the hook verif_lex, and the model wrapper driven by the real call sequence with the real lexers as oracle must return the real token list",
+        "the parser theorems take the token list as input; that the real token list tiles the source is also evaluated by S on every generated input",
+        "the conversion of logos tokens to TokenId (convert_*_token) is part of the lexer oracle, not of the model",
         "an Error event is modelled by its span only (the message text is not compared)",
         "the engine primitives of parser/src/parser/mod.rs, token_stream.rs and syntax_stream.rs are modelled by hand (Parser/Machine.v) and tied to the code by K: the model run with the generated grammar must reproduce the real event stream event for event; the grammar itself and the kind/token tables are regenerated from the source on every run",
         "node spans are proved exact only for runs in which no span was computed from a last_token_span reset by truncate() (node_spans_exact); K requires that flag to be false on every real run; a grammar for which it is true exists (node_spans_exact_all_grammars_refuted)",
@@ -21,7 +23,10 @@ RULE = ("sources from one PRNG: grammar-generated valid rules (modifiers, tags, 
         "token-level mutations of those (delete/duplicate/swap/insert tokens, unbalanced delimiters, non-ASCII characters, invalid "
         "UTF-8 bytes, truncation); deep nesting and long operator chains; token soups; random bytes; invalid UTF-8 at a random "
         "position; two mutated sources back to back. Sources with more than 90 tokens are skipped (quick), a corpus of past "
-        "failures runs first. Non-trivial: >= 5 tokens; distinct by source bytes.")
+        "failures runs first. Non-trivial: >= 5 tokens; distinct by source bytes. Second run (tokenizer wrapper): the same streams plus "
+        "sources that keep switching lexer modes (hex patterns and jumps with junk, unbalanced braces/brackets, unknown whitespace, "
+        "invalid bytes, input ending inside a hex mode); per source the real call sequence on the Tokenizer and the answers of the "
+        "three real lexers at every token boundary in every mode are recorded.")
 
 
 def classify(case):
@@ -49,10 +54,25 @@ def classify(case):
     return "C10:structure:" + str(case.get("stream"))
 
 
+def classify_tok(case):
+    if case.get("gap"):
+        return "C10:tokenizer-gap:" + str(case.get("stream"))
+    return "C10:tokenizer:" + str(case.get("stream"))
+
+
 def run_k(run, tier, seed, drv):
     n = 600 if tier == "quick" else 12000
     args = ["--seed", seed, "--n", n] + ([] if tier == "quick" else ["--max-tokens", 140])
     info = standard_k(run, drv, "C10", "c10", args, "K_C10_model_parser_vs_real_event_stream", classify)
+    # the tokenizer wrapper: model with the real lexers as oracle vs the real token list
+    nt = 600 if tier == "quick" else 6000
+    info2 = standard_k(run, drv, "C10tok", "c10", ["--tokenizer", "--seed", seed, "--n", nt], "K_C10_model_tokenizer_vs_real_tokens", classify_tok)
+    for k in ("evaluations", "distinct_nontrivial", "traces_validated_against_impl", "k_disagreements", "s_violations"):
+        info[k] = info.get(k, 0) + info2.get(k, 0)
+    info["broken"] = info.get("broken", []) + info2.get("broken", [])
+    info["violations"] = info.get("violations", []) + info2.get("violations", [])
+    if "distribution" in info and "distribution" in info2:
+        info["distribution"] = dict(info["distribution"], **{"tokenizer_" + k: v for k, v in info2["distribution"].items()})
     info["rule"] = RULE
     return info
 
@@ -74,12 +94,14 @@ MANIFEST = {
                    "consumed tokens in order, Begin/End are properly nested with equal kind and span, no engine assert fires, every "
                    "token is emitted unless the parser runs out of fuel, and node spans are token hulls when no span was taken from a "
                    "reset last_token_span; and that token_at_offset/token_at_position (UTF-8/16/32) of a token's own start return that "
-                   "token. The grammar, kind tables and dispatch table are regenerated from parser/src on every run; the model parser "
+                   "token; and that the tokenizer wrapper around the three lexers (modes, restart offsets, INVALID_UTF8/UNKNOWN pseudo tokens), for "
+                   "every lexer within its contract and every interleaving of mode switches, returns tokens that tile the source. The grammar, kind "
+                   "tables, dispatch table and the tokenizer's restart offsets / pseudo-token spans are regenerated from parser/src on every run; the model parser "
                    "running that grammar must reproduce the real parser's event stream event for event on generated valid, mutated, "
                    "deeply nested, non-ASCII, invalid-UTF-8 and random inputs, and the property is evaluated on the implementation's "
                    "own output (token spans tile the source, CST text round-trip, own-position lookups, AST spans in bounds)."),
-    "level_note": ("Trusted: Coq kernel, translate/gen_grammar.py, the harness. Not modelled: the logos tokenizers (their output is "
-                   "checked per input by S), error message texts, rowan. The engine model is hand-written and tied differentially. "
+    "level_note": ("Trusted: Coq kernel, translate/gen_grammar.py, translate/gen_tokenizer.py, the harness, the hook parser/src/tokenizer/verif.rs. "
+                   "Not modelled: the logos lexers themselves (abstract, contract checked per call), error message texts, rowan. The engine model is hand-written and tied differentially. "
                    "Repaired on this tree (inputs kept in the corpus): the tokenizer dropped a byte after a truncated multi-byte Unicode space (E2 80 / E2 81)."),
     "technique": "Coq proof over an interpreter of the combinator DSL (induction on fuel) + generated grammar + differential correspondence (vm_compute)",
     "design_ref": "DESIGN.md section 4, C10",
